@@ -2181,7 +2181,7 @@ def add_declarations(parent, node):
                 ])
             if "splicer" in dct:
                 dct["splicer"] = listify(
-                    dct["splicer"],["c", "c_buf", "f", "py"]
+                    dct["splicer"],["c", "c_buf", "c_cfi", "f", "py"]
                 )
             declnode = parent.add_declaration(decl, **dct)
             add_declarations(declnode, subnode)
